@@ -301,7 +301,7 @@ pub struct BinaryExpr {
 
 impl fmt::Display for BinaryExpr {
     fn fmt(&self, f: &mut fmt::Formatter) -> fmt::Result {
-        write!(f, "{}{}{}", self.left, self.operator, self.right)
+        write!(f, "({}{}{})", self.left, self.operator, self.right)
     }
 }
 
@@ -313,7 +313,7 @@ pub struct UnaryExpr {
 
 impl fmt::Display for UnaryExpr {
     fn fmt(&self, f: &mut fmt::Formatter) -> fmt::Result {
-        write!(f, "{}{}", self.operator, self.expr)
+        write!(f, "({}{})", self.operator, self.expr)
     }
 }
 
